@@ -5,6 +5,7 @@ import (
 	"fmt"
 	"regexp"
 	"strconv"
+	"strings"
 	"sync"
 
 	textwire "github.com/textwire/textwire/v2"
@@ -268,4 +269,14 @@ func concurrentBurst(c *core.Ctx, G, N int, mk func(g, n int) (src string, data 
 		}
 		c.Violation("concurrent-burst", fmt.Sprintf("evaluated next to other goroutines %q gave %q, want %q", clipS(b.src, 200), clipS(b.got, 300), clipS(b.want, 300)), map[string]any{"source": b.src})
 	}
+}
+
+// fmtMarker finds what Go's fmt leaves behind when a finished message is used as a format string
+func fmtMarker(s string) string {
+	for _, m := range []string{"%!", "(MISSING)", "(EXTRA ", "(NOVERB)", "(BADINDEX)", "(BADWIDTH)", "(BADPREC)"} {
+		if strings.Contains(s, m) {
+			return m
+		}
+	}
+	return ""
 }
